@@ -267,6 +267,26 @@ def _chunk(args):
     return out
 
 
+def _digest_chunk(args):
+    cid, base_seed, tier, start, stop = args
+    check = load_check(cid)
+    out = []
+    for idx in range(start, stop):
+        rs, sc = make_scenario(check, base_seed, idx, tier)
+        ctx = execute(check, sc, rs)
+        # execution digest + outcome digest + what was found: all must be reproducible
+        out.append((idx, f"{ctx.digest():016x}-{ctx.outcome_digest():016x}-{ctx.decisions()}-"
+                         f"{h64(tuple((v.clause, v.detail, v.finding) for v in ctx.violations)):016x}"))
+    return out
+
+
+def digest_runs(eng, n, chunk=5):
+    jobs = [(eng.cid, eng.seed, eng.tier, a, min(a + chunk, n)) for a in range(0, n, chunk)]
+    for part in eng.map(_digest_chunk, jobs):
+        for idx, d in part:
+            yield idx, d
+
+
 def _dist_chunk(args):
     cid, sc, base_seed, tag, start, stop = args
     faulthandler.dump_traceback_later(900, exit=True)
